@@ -923,6 +923,14 @@ class Hist:
 
         items = [(self.gene(a, g) if a.model.genes.has_id(g) else Gene(g)) if (how == "obj" and isinstance(g, str)) else g
                  for g in op["genes"]]
+        if op.get("src") == "foreign":
+            # gene objects of ANOTHER live model (e.g. the original of this copy): they name genes, they are not acted upon
+            bi = op.get("actor2", -1)
+            if not (0 <= bi < len(self.actors)) or self.actors[bi] is a:
+                raise Skip("no foreign actor")
+            b = self.actors[bi]
+            items = [b.model.genes.get_by_id(g) if isinstance(g, str) and b.model.genes.has_id(g) else g for g in op["genes"]]
+            self.stats["probe:operand_from_another_live_model"] += 1
         return knock_out_model_genes(a.model, items)
 
     def do_remove_genes(self, a, op, env):
@@ -1532,6 +1540,8 @@ def gen_op(rng, H, sw):
 
     def new_met():
         i = _fresh("N", ref.mets, rng)
+        if rids and rng.random() < 0.06 and (x := rng.choice(rids)) not in ref.mets and len(x) < 200:
+            i = x  # an identifier that a reaction of the model already has: the kinds have separate namespaces
         if inv and rng.random() < 0.3:
             i = rng.choice(["bad id", "tab\tid"])
         return {"t": "new", "id": i, "name": rng.choice(["", "new met"]), "formula": rng.choice([None, "H2O"]),
@@ -1679,6 +1689,8 @@ def gen_op(rng, H, sw):
             i = _fresh("R", ref.rxns, rng)
             if rng.random() < 0.15 and rids:
                 i = rid()  # existing id -> ignored
+            elif mids and rng.random() < 0.06 and (x := rng.choice(mids)) not in ref.rxns:
+                i = x  # an identifier that a metabolite of the model already has
             tree = gprtree.random_tree(rng, GENES[: sw["n_genes"]], 2) if rng.random() < sw["p_rule"] else None
             lb, ub = sorted([rng.choice(BOUNDS), rng.choice(BOUNDS)])
             ml = [[mr, c] for mr, c in metlist() if mr["t"] != "id"]
@@ -1752,6 +1764,8 @@ def gen_op(rng, H, sw):
             gs.append({"id": "g99", "obj": "g99", "idx": 99}[how] if rng.random() < 0.8 else None)
         op.update(genes=gs)
         op["as"] = how
+        if how == "obj" and len(H.actors) > 1 and rng.random() < 0.4:
+            op.update(src="foreign", actor2=rng.choice([i for i in range(len(H.actors)) if i != ai]))
     elif k == "remove_genes":
         if not gids:
             return gen_fallback(op, rid, rng)
